@@ -745,3 +745,8 @@ def run(ctx: Context) -> None:
     ctx.isolate(r9_reader_keeps_everything)
     from . import c06
     ctx.isolate(c06.r5_cancellation_reported, _alias={"C06.R5": "C08.R8"})
+    from . import c07, c18
+    ctx.isolate(c07.r1_one_of_n, _alias={"C07.R1": "C08.R10"})
+    ctx.isolate(c18.r2b_parameter_agreement, _alias={"C18.R2b": "C08.R11"})
+    from . import c17
+    ctx.isolate(c17.cache_coherence, "C08.R12", ("TaskGraph", "Task"), "deadlines and completion written to the trace are read from the graph at that moment", 2)
